@@ -96,6 +96,20 @@ func All(verif, prop string) []Variant {
 	rounds, _ := filepath.Glob(filepath.Join(verif, "tools", "preserving*"))
 	sort.Strings(rounds)
 	for _, rd := range rounds {
+		// patches on which a rule is known to raise a false alarm still (DESIGN §8.1 lists them with the rule): they are
+		// not variants of the thorough tier — listing one here is an admission, not a fix
+		residual := map[string]bool{}
+		if b, err := os.ReadFile(filepath.Join(rd, "residual.json")); err == nil {
+			var rs map[string]interface{}
+			if json.Unmarshal(b, &rs) == nil {
+				for k := range rs {
+					residual[filepath.Join(rd, k+".diff")] = true
+				}
+			}
+		}
+		for k := range residual {
+			seen[k] = true
+		}
 		own, _ := filepath.Glob(filepath.Join(rd, prop, "p*.diff"))
 		sort.Strings(own)
 		for _, pf := range own {
